@@ -6,6 +6,8 @@ import LocustModel.Lemmas.C11Progress
 import LocustModel.Lemmas.C11Value
 import LocustModel.Lemmas.C11Db
 import LocustModel.Thm.C06
+import LocustModel.Conc.WalGate
+import LocustModel.Thm.C18
 /-
   C11 — every call completes; a failing request does not damage the database.
 
@@ -231,8 +233,61 @@ theorem C11_lock_order_acyclic : ∀ l : List Lock, ¬ Cycle Edge l := by
 
 example : Edge .walSize .frozen := ⟨"wal_flush", by decide⟩
 
-/-- every lock field named in the extracted acquisition table is a lock of the order -/
-theorem C11_lock_sites_known : ∀ e ∈ lockSites, ∀ f ∈ e.2, (fieldLock f).isSome = true := by decide
+/-- The same for ANY relation that goes up in `rank` — in particular for the held → acquired pairs the harness extracts
+    from the source on every run: if the driver accepted every pair (`pairRanked`, the test behind `judgePairs`), the
+    wait-for relation those pairs generate has no cycle.  A swapped acquisition order inside a function, or a call that
+    re-acquires a lock the caller holds, produces a pair the test rejects (`BAD lock-order <fn>: <a> before <b>`). -/
+theorem C11_extracted_pairs_acyclic (pairs : List (String × String × String))
+    (h : ∀ p ∈ pairs, pairRanked p.1 p.2.1 p.2.2 = true) : ∀ l : List Lock, ¬ Cycle (PairEdge pairs) l := by
+  have hR : ∀ a b, PairEdge pairs a b → rank a < rank b := by
+    intro a b ⟨p, hp, ha, hb⟩
+    have := h p hp
+    simp only [pairRanked, ha, hb] at this
+    exact of_decide_eq_true this
+  have path : ∀ (l : List Lock) (a b : Lock), Path (PairEdge pairs) a l b → rank a < rank b := by
+    intro l
+    induction l with
+    | nil => intro a b h; exact hR a b h
+    | cons c rest ih => intro a b h; exact Nat.lt_trans (hR a c h.1) (ih c b h.2)
+  intro l hc
+  cases l with
+  | nil => exact hc
+  | cons a rest => exact Nat.lt_irrefl _ (path rest a a hc)
+
+example : pairRanked "table.rs" "frozen_buffer" "buffer" = true := by decide
+-- a swapped order inside `freeze_buffer`, and `push_result` calling `fail_with` under the state mutex, are rejected
+example : pairRanked "table.rs" "buffer" "frozen_buffer" = false := by decide
+example : pairRanked "query_task.rs" "unsafe_state" "unsafe_state" = false := by decide
+example : pairRanked "disk_read_scheduler.rs" "task_queue" "background_load_in_progress" = true := by decide
+
+/-! ## The log-size gate of ingestion -/
+
+/-- `ingest_efficient` returns whatever the limit and the accounted log size are (limit 0 and a size exactly equal to
+    the limit included): the comparison that makes it wait (`ingestGate`, as found in the source) implies the comparison
+    that makes the flush thread flush (`flushTriggerSize`, as found in the source).  A source edit that moves one of the
+    two boundaries but not the other fails this obligation (and `C18_no_stuck_ingest`). -/
+theorem C11_ingest_gate_returns (max size add : Nat) : (LM.WalGate.ingestCall max size add).1 = true := by
+  simp only [LM.WalGate.ingestCall]
+  split
+  · next h =>
+    exfalso
+    simp [LM.Gen.WalProtocol.ingestGate, LM.Gen.WalProtocol.flushTriggerSize, LM.Gen.WalProtocol.Cmp.holds] at h
+  · rfl
+
+example : LM.WalGate.ingestCall 0 0 100 = (true, 0) := by decide
+example : LM.WalGate.ingestCall 100 100 7 = (true, 0) := by decide
+example : LM.WalGate.ingestCalls 100 0 [100, 7, 7] = [(true, 100), (true, 0), (true, 7)] := by decide
+
+/-- "A waiting ingestion implies a triggered flush", in the interleaved machine of the store (flush in flight, pending
+    force_flush requests, file-count trigger): cross-reference to `C18_no_stuck_ingest`, not a second proof. -/
+theorem C11_waiting_ingest_is_released {ν κ : Type} [DecidableEq ν]
+    (P : LM.Store.Params ν κ) (hP : LM.Store.ParamsOk P) (ops : List (LM.Store.IOp ν κ)) (hwf : LM.Store.IHistWF ops)
+    (iw : LM.Store.IWorld ν κ) (hrun : LM.Store.irun P ops = .ok iw) (fi : LM.Store.FlushIn ν) (hfi : LM.Store.FlushWF fi)
+    (maxWalFiles : Nat) (hwait : LM.Store.ingestWaits P iw) :
+    ∃ iwq iw', LM.Store.ifold P (match iw.fl with | none => [] | some f => LM.Store.finishOps f.stage fi) iw = .ok iwq ∧
+      iwq.fl = none ∧ LM.Store.flushTriggered P maxWalFiles iwq ∧
+      LM.Store.istep P iwq (.flushBegin iwq.pending.length) = .ok iw' ∧ ¬ LM.Store.ingestWaits P iw' :=
+  LM.C18.C18_no_stuck_ingest P hP ops hwf iw hrun fi hfi maxWalFiles hwait
 
 /-! ## Composition -/
 
@@ -251,6 +306,10 @@ theorem C11_round_meets_spec (n : Nat) (r : Req) (out : Ret) (o : Obs) (h : Roun
   roundOk_spec n r out o h
 
 example : specRound 2 (.fnTask .fault) (.err "canceled") ⟨2, .ok, .ok⟩ = none := by decide
+-- a query whose failure arises in the final merge / final pass (under the task's state mutex), one worker, three partitions
+example : ((Db.init 1).round .current (.queryPhase [.done, .done, .done] .err "overflow")).2 = (.err "overflow", ⟨1, .ok, .ok⟩) := by decide
+example : ((Db.init 2).round .current (.queryPhase [.done, .err, .done] .done "type")).2 = (.err "type", ⟨2, .ok, .ok⟩) := by decide
+example : Req.CallerOk (.queryPhase [.done, .done, .done] .err "overflow") := by simp [Req.CallerOk]
 example : specRound 2 (.fnTask .fault) (.err "canceled") ⟨1, .ok, .ok⟩ = some "worker lost" := by decide
 
 /-- The bodies of the requests of the modelled fragment are `NoFault`: wherever another property proves totality of the
